@@ -72,8 +72,17 @@ def has_decl(f, name):
     return any(x['k'] == 'VarDecl' and x.get('name') == name for x in f.all_nodes())
 
 
+VOCAB = ('side', 'rank(wPawn)', 'wKing', 'bKing', 'nextPawnSq', 'kingMoves', 'wPawn')
+
+
 def same(ctx, rule, key, found, want, what, site):
     ok = found == want
+    if not ok:
+        # an atom over something the rules of the KPK move relation do not mention cannot be judged
+        for a in found - want:
+            names = [x for x in a[1:] if isinstance(x, str)]
+            if any(not any(x == v or x.startswith(v) for v in VOCAB) for x in names):
+                raise AnalysisBroken('C12: %s is governed by `%s`, which the rule does not know' % (key, ' '.join(map(str, a))))
     det = {}
     if not ok:
         det = {'missing': show(want - found), 'unexpected': show(found - want)}
@@ -240,6 +249,8 @@ def check(ctx):
     fin_ok = len(fin) == 1 and cn(us, kids(fin[0])[0]) == '(isUnknown?kUNKNOWN:worseResult)'
     iu = decl(us, 'isUnknown')
     iu_ok = const_of(strip_casts(kids(iu)[0])) == 0 and not [1 for l, r, x in assigns(us) if l == 'isUnknown']
+    if not (n_early == len(succ) and n_unk == len(succ)) and any(x['k'] == 'LambdaExpr' for x in us.all_nodes()):
+        raise AnalysisBroken('C12: update_score inspects successors through a local lambda; the minimax rule does not read through it')
     ctx.ob('C12.R1.minimax', 'update_score', n_early == len(succ) and n_unk == len(succ) and fin_ok and iu_ok,
            'a position takes the better result as soon as one successor has it, stays UNKNOWN while some successor is UNKNOWN, else gets the worse one '
            '(%d/%d early returns, %d/%d UNKNOWN tests)' % (n_early, len(succ), n_unk, len(succ)), site=us.loc())
@@ -379,26 +390,73 @@ def check(ctx):
     pc = [n for n, cfid, nm in ini.calls() if nm == BB + 'parse_index']
     ctx.ob('C12.R4.decode', 'initial_score', len(pc) == 1 and [cn(ini, a) for a in kids(pc[0])[1:]] == ['idx', 'side', 'wKing', 'wPawn', 'bKing'],
            'the position classified is the one decoded from the index', site=ini.loc())
-    term = []
-    for n in kids(ini.body):
-        if n['k'] == 'IfStmt':
-            r = [cn(ini, kids(x)[0]) for x in walk(kids(n)[1]) if x['k'] == 'ReturnStmt']
-            term.append((frozenset(noresults(c) for c in disj(ini, kids(n)[0])), r[0] if r else None))
-        elif n['k'] == 'ReturnStmt':
-            term.append((None, cn(ini, kids(n)[0])))
-    want_t = [
-        (frozenset({frozenset({('le', 'distance(wKing,bKing)', 1)}), frozenset({('eq', 'wKing', 'wPawn')}), frozenset({('eq', 'bKing', 'wPawn')}),
-                    frozenset({IN('side', W), ('truthy', 'blackInCheck', True)})}), 'kINVALID'),
-        (frozenset({frozenset({IN('side', B), ('truthy', 'bKingMoves', False)})}), 'kDRAW'),
-        (frozenset({frozenset({IN('side', W), IN('rank(wPawn)', RK['RANK_7']), ('ne', 'nextPawnSquare', 'wKing'), ('ne', 'bKing', 'nextPawnSquare'),
-                               ('truthy', '(bKingMoves&square_bb(nextPawnSquare))', False)})}), 'kWIN'),
-        (frozenset({frozenset({IN('side', B), ('truthy', '(bKingMoves&square_bb(wPawn))', True)})}), 'kDRAW'),
-        (None, 'kUNKNOWN'),
-    ]
-    ctx.ob('C12.R4.terminal', 'initial_score', term == want_t,
-           'terminal clauses in order: illegal set-ups INVALID; Black to move without a king move is stalemate (DRAW); a safe promotion is a WIN; '
-           'Black capturing the pawn is a DRAW; everything else UNKNOWN', site=ini.loc(),
-           detail={'found': str([(show(c) if c is not None else 'otherwise', r) for c, r in term])})
+    # the classification as a decision function of its eleven atoms, compared row by row with the rule (2048 rows); how the
+    # ifs are nested or merged does not matter
+    import itertools
+    from rules.norm import Norm, decision, Unknown
+    nmi = Norm(ini)
+    BK = nmi.s(kids(decl(ini, 'bKingMoves'))[0])
+    BC = nmi.s(kids(decl(ini, 'blackInCheck'))[0])
+    NP = nmi.s(kids(decl(ini, 'nextPawnSquare'))[0])
+    sqp = 'square_bb(wPawn)'
+
+    def top_parts(x):
+        x = x[1:-1] if x.startswith('(') and x.endswith(')') else x
+        parts, depth, cur = [], 0, ''
+        for ch in x:
+            if ch in '([':
+                depth += 1
+            elif ch in ')]':
+                depth -= 1
+            if ch == '&' and depth == 0:
+                parts.append(cur)
+                cur = ''
+            else:
+                cur += ch
+        return parts + [cur]
+
+    def band(x, y):
+        return '(' + '&'.join(sorted(top_parts(x) + [y])) + ')'
+    X_expr = [band(BK, sqp)]
+    N_expr = [band(BK, 'square_bb(%s)' % NP)]
+    names = ['A1', 'A2', 'A3', 'S', 'C', 'M', 'R7', 'K1', 'K2', 'N', 'X']
+    bad = None
+    n_rows = 0
+    try:
+        for bits in itertools.product((False, True), repeat=len(names)):
+            v = dict(zip(names, bits))
+            val = {'distance(wKing,bKing)': 1 if v['A1'] else 3, 'side': 0 if v['S'] else 1, 'rank(wPawn)': RK['RANK_7'] if v['R7'] else RK['RANK_4'],
+                   ('eq',) + tuple(sorted(['wKing', 'wPawn'])): v['A2'], ('eq',) + tuple(sorted(['bKing', 'wPawn'])): v['A3'],
+                   ('eq',) + tuple(sorted(['wKing', NP])): v['K1'], ('eq',) + tuple(sorted(['bKing', NP])): v['K2'],
+                   BC: v['C'], BK: v['M']}
+            for e in X_expr:
+                val[e] = v['X']
+            for e in N_expr:
+                val[e] = v['N']
+            if v['X'] and not v['M'] or v['N'] and not v['M']:
+                continue            # a subset of the king moves cannot be non-empty when the set is empty
+            n_rows += 1
+            r = decision(ini, val, nmi)
+            got = cn(ini, kids(r)[0]) if r is not None else None
+            white = v['S']
+            if v['A1'] or v['A2'] or v['A3'] or (white and v['C']):
+                want = 'kINVALID'
+            elif not white and not v['M']:
+                want = 'kDRAW'
+            elif white and v['R7'] and not v['K1'] and not v['K2'] and not v['N']:
+                want = 'kWIN'
+            elif not white and v['X']:
+                want = 'kDRAW'
+            else:
+                want = 'kUNKNOWN'
+            if got != want and bad is None:
+                bad = (dict((k_, v[k_]) for k_ in names if v[k_]), got, want)
+    except Unknown as u:
+        raise AnalysisBroken('C12: initial_score tests `%s`, which is not one of the atoms of the terminal rules' % u)
+    ctx.ob('C12.R4.terminal', 'initial_score', bad is None and n_rows >= 1000,
+           'terminal classification as a decision table over 11 atoms (%d consistent rows): illegal set-ups INVALID; Black to move without a king '
+           'move is stalemate (DRAW); a safe promotion is a WIN; Black capturing the pawn is a DRAW; everything else UNKNOWN%s'
+           % (n_rows, '' if bad is None else ' — with %s the code answers %s, the rules %s' % bad), site=ini.loc())
 
     def and_parts(f, n, out):
         n = _unbool(n)
@@ -491,14 +549,22 @@ def check(ctx):
             srcs = [cn(k, kids(decl(k, v))[0]).replace('this.', '') for v in ca]
             ok = srcs == ['position.color()', 'position.piece_position(strongKing,0)',
                           'position.piece_position(make_piece(strongSide,PAWN),0)', 'position.piece_position(weakKing,0)']
-            rets = {}
-            for r in k.all_nodes():
-                if r['k'] == 'ReturnStmt':
-                    g = facts_atoms(k, guard_facts(k, r))
-                    key = 'win' if ('truthy', cn(k, cc[0]), True) in g else 'draw' if ('truthy', cn(k, cc[0]), False) in g else '?'
-                    rets[key] = cn(k, kids(r)[0])
-            ok = ok and set(rets) == {'win', 'draw'} and 'VALUE_KNOWN_WIN' in rets['win'] and 'VALUE_KNOWN_WIN' not in rets['draw'] and \
-                'DRAW' in rets['draw']
+            # verdict mapping, per case of the lookup: the returned score is KNOWN_WIN + ... for a set bit and a drawish base otherwise
+            from rules.norm import Norm as _N, decision as _decision, Unknown as _Unknown
+            plain = _N(k, inline=False)
+            chk = plain.s(cc[0])
+            kw, pd = p.val('engine::VALUE_KNOWN_WIN'), p.val('engine::VALUE_POSITIVE_DRAW')
+            bases = {}
+            for hit in (True, False):
+                nmk = _N(k, assume={('truthy', chk, True): hit})
+                try:
+                    r = _decision(k, {('truthy', chk, True): hit}, nmk)
+                except _Unknown as u:
+                    raise AnalysisBroken('C12: the KPK evaluator branches on `%s`, which the rule does not know' % u)
+                lin = nmk.linear(kids(r)[0]) if r is not None else None
+                bases[hit] = lin
+            ok = bases[True] is not None and bases[False] is not None and bases[True][1] == kw and bases[False][1] == pd and \
+                bases[True][0] == bases[False][0] and all(c_ >= 0 for c_ in bases[True][0].values())
     ctx.ob('C12.R6.consumer', 'Endgame<kKPK>', bool(ok),
            'the KPK evaluator normalises (side to move, strong king, pawn, weak king) of the position, looks exactly those up, and scores a set bit '
            'as a win and a clear bit as a draw', site=k.loc())
